@@ -591,6 +591,34 @@ def run(ck: Check):
         ck.count("window_size_reassigned_cases")
         if bad is not None:
             ck.violation(dict(clause="streaming", scenario="window-size-reassigned"), dict(what="`detector.window_size = detector.window_size` in mid-stream changed the detector's outputs", w=w, reference=ref.tolist(), stream=stream, first_difference=bad, with_assignment=o1, without=o2))
+    # (c) the stand-alone statistic `d.statistical_method(X, Y, **d.statistical_kwargs)` of a detector is the statistic under
+    #     ITS OWN kernel / chunk size whatever other MMD detectors (batch or streaming, other bandwidths, other chunk sizes)
+    #     were constructed or re-parameterised after it
+    Xa = np.array([prng.gauss(0, 1) for _ in range(8)])
+    Ya = np.array([prng.gauss(1.0, 1.5) for _ in range(6)])
+    for later in ("batch", "streaming", "setter"):
+        try:
+            d1 = _MMDb(kernel=kernel_of(0.5), chunk_size=3)
+            if later == "batch":
+                _MMDb(kernel=kernel_of(3.0), chunk_size=None)
+            elif later == "streaming":
+                _MMDs(window_size=4, kernel=kernel_of(3.0), chunk_size=2)
+            else:
+                d2 = _MMDb(kernel=kernel_of(0.5), chunk_size=3)
+                d2.kernel = kernel_of(3.0)
+                d2.chunk_size = 5
+            got = float(d1.statistical_method(Xa, Ya, **d1.statistical_kwargs))
+            d1.fit(X=Xa)
+            got2 = float(d1.compare(X=Ya)[0].distance)
+        except Exception as e:  # noqa: BLE001
+            got = got2 = repr(e)
+        exp = mmd_direct(Xa, Ya, 0.5)
+        ck.case(dict(kind="other-detector-constructed-later", later=later), nontrivial=True, key=repr(("later", later)))
+        ck.count("other_detector_later_cases")
+        for nm, g in (("stand-alone statistic", got), ("compare", got2)):
+            if isinstance(g, str) or not close(g, exp, RTOL, ATOL):
+                ck.violation(dict(clause="estimator", path="other-detector-constructed-later", observable=nm, later=later),
+                             dict(what=f"the {nm} of an MMD detector (sigma 0.5) changed after ANOTHER MMD detector with sigma 3.0 was constructed / re-parameterised", X=Xa.tolist(), Y=Ya.tolist(), sigma=0.5, chunk_size=3, got=g, expected=exp, other=later))
     # constructor boundaries (correspondence only)
     for w, chunk in ((0, None), (-1, 2), (1, 0), (0, 0)):
         sc.append((w, chunk, None, [], impl_stream(w, chunk, None, [])))
